@@ -814,6 +814,23 @@ def injection_records(ctx, quick):
     return out
 
 
+def observed_err_class(msg):
+    m = msg or ''
+    if 'unsupported trait' in m:
+        return 'unsupported'
+    if 'is not used' in m:
+        return 'unused'
+    if 'cannot be placed here' in m:
+        return 'place'
+    if 'incorrect format' in m:
+        return 'format'
+    if 'trying to reset' in m:
+        return 'reset'
+    if 'not precise' in m or 'uninitialized memory' in m or 'does not support to a union' in m:
+        return 'union'
+    return 'syn'
+
+
 def c13(ctx):
     quick = ctx.tier == 'quick'
     recs = injection_records(ctx, quick)
@@ -877,6 +894,24 @@ def c13(ctx):
             key = {'kind': 'structural', 'class': why, 'cfg': cfg}
             what = 'a contradictory / ambiguous / misplaced construct (%s) was %s instead of being refused with a diagnostic' % (why, e['outcome'])
         ctx.violation(key, {'what': what, 'input': textmap[rid], 'outcome': rawmap[rid]['outcome'], 'err': rawmap[rid].get('err'), 'out': rawmap[rid].get('out')})
+    # drift (never a verdict): does the diagnostic that wins belong to the class the scanner model predicts?
+    drift = {}
+    n_cls = 0
+    for i, r in enumerate(recs):
+        ec = r.get('errclass', '-')
+        if ec in ('-', 'other'):
+            continue
+        ob = rawmap['i%d' % i]
+        if ob['outcome'] != 'err':
+            continue
+        n_cls += 1
+        oc = observed_err_class(ob.get('err'))
+        if oc != ec:
+            drift.setdefault('%s->%s' % (ec, oc), []).append(textmap['i%d' % i])
+    ctx.coverage['error_class_predictions'] = n_cls
+    ctx.coverage['error_class_drift'] = {k: {'count': len(v), 'example': v[0]} for k, v in drift.items()}
+    for k, v in drift.items():
+        ctx.note('drift: predicted/observed diagnostic class %s for %d inputs, e.g. %s' % (k, len(v), v[0][:160]))
     ctx.coverage.update({
         'traces_validated_against_impl': res['n'] - len(res['bad']), 'trace_files': 1, 'trace_events': res['n'], 'trace_events_rejected': len(res['bad']),
         'programs': len(requests), 'evaluations': len(requests), 'distinct_nontrivial': n_bad + len(neg),
